@@ -325,6 +325,9 @@ class Recorder:
                 self.bad("argsOk", "handler %d got %r %r, event carried %r" % (hid, a, kw, exp))
             if with_details and (details is None or details.publication != exp[2]):
                 self.bad("argsOk", "handler %d details %r" % (hid, details))
+            # details.topic is the topic the event was published to when the router names it (pattern-based subscriptions)
+            if with_details and details is not None and getattr(self, "event_topic", None) is not None and details.topic != self.event_topic:
+                self.bad("argsOk", "handler %d details.topic %r, EVENT named %r" % (hid, details.topic, self.event_topic))
             # the details name the subscription of *this* handler (so that details.subscription.unsubscribe() removes the right one)
             if with_details and details is not None:
                 sub = details.subscription
@@ -553,10 +556,24 @@ def scenario(rng, profile):
                 opts = SubscribeOptions(details=True) if hids[hid] else None
                 fut = s.subscribe(R.handlers[hid], topic, options=opts)
                 rid = R.last_req()
-                R.requests[rid] = dict(kind="subscribe", hid=hid)
+                R.requests[rid] = dict(kind="subscribe", hid=hid, unsub_on_reply=(profile == "c11" and rng.random() < 0.15))
 
-                def got(sub):
+                def got(sub, rid=rid):
                     R.subs_objs.setdefault((sub.id, hid), []).append(sub)
+                    if R.requests[rid].get("unsub_on_reply"):
+                        # a one-shot subscriber: unsubscribes in the continuation of subscribe()
+                        before = R.last_req()
+                        try:
+                            f2 = sub.unsubscribe()
+                        except BaseException as e:  # noqa
+                            R.bad("faithful", "unsubscribe() in the subscribe continuation raised %s" % type(e).__name__)
+                            return sub
+                        r2 = R.last_req()
+                        if r2 != before and r2 in s._unsubscribe_reqs:
+                            R.requests[r2] = dict(kind="unsubscribe")
+                            R.track(f2, r2)
+                        else:
+                            R.track(f2, 0)
                     return sub
                 txaio.add_callbacks(fut, got, None)
                 R.track(fut, rid)
@@ -657,7 +674,8 @@ def scenario(rng, profile):
             rid = pick_req("subscribe")
             sub = rng.choice([11, 11, 12])
             known_subs.append(sub)
-            rx(message.Subscribed(rid, sub), dict(t="subscribed", req=rid, sub=sub))
+            flagged = bool(R.requests.get(rid, {}).get("unsub_on_reply")) and rid in s._subscribe_reqs
+            rx(message.Subscribed(rid, sub), dict(t="subscribed", req=rid, sub=sub, unsub=flagged))
         elif t == "unsubscribed":
             rid = pick_req("unsubscribe")
             rx(message.Unsubscribed(rid), dict(t="unsubscribed", req=rid))
@@ -679,7 +697,10 @@ def scenario(rng, profile):
                 p_ = rng.randint(1, len(cur))
                 q_ = rng.randint(1, len(cur))
                 R.reent = dict(p=p_, q=q_, n=0, done=False, snapshot=cur)
-            rx(message.Event(sub, pubid, args=margs or None, kwargs=mkwargs or None), dict(t="event", sub=sub, p=p_, q=q_))
+            etopic = rng.choice([None, None, "com.myapp.topic1.sub.x", "com.myapp.other"])     # pattern-based subscriptions: the router names the topic
+            R.event_topic = etopic
+            rx(message.Event(sub, pubid, args=margs or None, kwargs=mkwargs or None, topic=etopic), dict(t="event", sub=sub, p=p_, q=q_))
+            R.event_topic = None
             R.reent = None
             R.event_expect = None
         elif t == "invocation":
@@ -825,7 +846,7 @@ def scenario(rng, profile):
         R.step(dict(ev="api", name="subscribe_obj", hs=want_hs))
         if len(rids) == 3:
             for i, rid in enumerate(rids):
-                rx(message.Subscribed(rid, 11 + i), dict(t="subscribed", req=rid, sub=11 + i))
+                rx(message.Subscribed(rid, 11 + i), dict(t="subscribed", req=rid, sub=11 + i, unsub=False))
     elif s._session_id is not None and profile == "c11":
         for hid in rng.sample([1, 2, 3], rng.randint(1, 3)):
             R.expect_sent = dict(uri="com.myapp.topic1")
@@ -843,7 +864,7 @@ def scenario(rng, profile):
                 R.track(fut, rid)
             api("subscribe", f1, h=hid)
             rid1 = R.last_req()
-            rx(message.Subscribed(rid1, 11), dict(t="subscribed", req=rid1, sub=11))
+            rx(message.Subscribed(rid1, 11), dict(t="subscribed", req=rid1, sub=11, unsub=False))
     steps = rng.randint(4, 16)
     lost = False
     for _ in range(steps):
